@@ -848,14 +848,14 @@ theorem Does.classifyNs (child : NameL.Name) (hc : Folded child) (rds : List (Li
           refine Does.weaken (Does.pure _) (fun x hx => ?_)
           subst hx
           refine ⟨fold n :: ts, by simp [allSome, hn, hts], ?_, ?_⟩
-          · simp [List.filter_cons, hb, hg]
-          · simp [List.filter_cons, hb, ha]
-        · simp only [hb, if_false]
+          · simp [hb, hg]
+          · simp [hb, ha]
+        · simp only [hb]
           refine Does.weaken (Does.pure _) (fun x hx => ?_)
           subst hx
           refine ⟨fold n :: ts, by simp [allSome, hn, hts], ?_, ?_⟩
-          · simp [List.filter_cons, hb, hg]
-          · simp [List.filter_cons, hb, ha]
+          · simp [hb, hg]
+          · simp [hb, ha]
     refine Does.congr (Does.bind h1 h2) ?_
     cases ht : targetAt 0 rd with
     | none => simp [allSome, ht]
@@ -2013,7 +2013,7 @@ theorem Logs.classifyNs (child : WName) (rds : List (List UInt8)) (idx : Nat) (P
       rcases hx with h | h
       · subst h; exact hb
       · exact hg x h
-    · simp only [hb, if_false]
+    · simp only [hb]
       refine Logs.weaken (Logs.pure _ _) (fun _ h => h) (fun x hx => ?_)
       subst hx
       refine ⟨hg, ?_⟩
